@@ -226,7 +226,11 @@ func (u *c09Univ) typeDecl(i int) string {
 	case 'i':
 		fmt.Fprintf(&sb, "type %s interface {", t.Name)
 		for _, m := range t.Methods {
-			fmt.Fprintf(&sb, " %s() int;", m.Name)
+			if m.Name == "String" || m.Name == "Error" {
+				fmt.Fprintf(&sb, " %s() string;", m.Name)
+			} else {
+				fmt.Fprintf(&sb, " %s() int;", m.Name)
+			}
 		}
 		sb.WriteString(" }")
 	}
@@ -240,6 +244,14 @@ func (u *c09Univ) methodDecls(i int) []string {
 	}
 	var out []string
 	for mi, m := range t.Methods {
+		if m.Name == "String" || m.Name == "Error" {
+			star := ""
+			if m.Ptr {
+				star = "*"
+			}
+			out = append(out, fmt.Sprintf("func (r %s%s) %s() string { return \"s%d\" }", star, t.Name, m.Name, c09base(i, mi)))
+			continue
+		}
 		star, tag := "", "r.K"
 		if m.Ptr {
 			star = "*"
@@ -415,7 +427,7 @@ func c09decl(arg string) *c09State {
 		s.ir = c09cur.ir
 	} else {
 		s.ir = newQuietInterp()
-		evalSrc(s.ir, `import "fmt"`)
+		evalSrc(s.ir, `import ("fmt"; "time"; "errors")`)
 	}
 	var tds []string
 	for i := range s.u.Types {
@@ -860,9 +872,12 @@ func (s *c09State) implProbe(t int, ptr bool, i int, variant int) string {
 }
 
 // ---------- type switches ----------
-// type codes: k = T_k, 100+k = *T_k, 200 = int, 201 = string, n = nil
+// type codes: k = T_k (struct, named int, or interpreted interface as a case), 100+k = *T_k,
+// 200 int, 201 string, 300 fmt.Stringer, 301 error, 310 time.Duration, 311 time.Month,
+// 312 the dynamic type of errors.New(..) (operand only), n = nil.
+// tag: "e" = the switch operand has static type interface{}, k = interpreted interface T_k.
 
-func (s *c09State) tyName(code string) (string, bool) {
+func (s *c09State) tyName(code string, asCase bool) (string, bool) {
 	if code == "n" {
 		return "nil", true
 	}
@@ -875,9 +890,21 @@ func (s *c09State) tyName(code string) (string, bool) {
 		return "int", true
 	case k == 201:
 		return "string", true
+	case k == 300 && asCase:
+		return "fmt.Stringer", true
+	case k == 301 && asCase:
+		return "error", true
+	case k == 310:
+		return "time.Duration", true
+	case k == 311:
+		return "time.Month", true
+	case k == 312 && !asCase:
+		return "*errors.errorString", true
+	case k >= 200:
+		return "", false
 	case k >= 100 && k-100 < len(s.u.Types) && s.u.Types[k-100].Kind != 'i':
 		return "*" + s.u.Types[k-100].Name, true
-	case k >= 0 && k < len(s.u.Types) && s.u.Types[k].Kind != 'i':
+	case k >= 0 && k < len(s.u.Types) && (s.u.Types[k].Kind != 'i' || asCase):
 		return s.u.Types[k].Name, true
 	}
 	return "", false
@@ -893,25 +920,67 @@ func (s *c09State) tyValue(code string) string {
 		return "7"
 	case k == 201:
 		return `"s"`
+	case k == 310:
+		return "time.Second"
+	case k == 311:
+		return "time.March"
+	case k == 312:
+		return `errors.New("x")`
+	case k >= 100 && s.u.Types[k-100].Kind == 's':
+		return "&" + s.u.vn(k-100) // initialised instance: no nil embedded pointers
 	case k >= 100:
 		return "new(" + s.u.Types[k-100].Name + ")"
 	case s.u.Types[k].Kind == 'o':
 		return s.u.Types[k].Name + "(3)"
 	}
-	return s.u.Types[k].Name + "{}"
+	return s.u.vn(k)
+}
+
+// index of the struct type whose instance variable the operand of a tsw op uses (-1: none)
+func (s *c09State) tswInstance(dyn string) int {
+	k, err := strconv.Atoi(dyn)
+	if err != nil || k >= 200 {
+		return -1
+	}
+	if k >= 100 {
+		k -= 100
+	}
+	if k < len(s.u.Types) && s.u.Types[k].Kind == 's' {
+		return k
+	}
+	return -1
+}
+
+func c09tswSplit(arg string) (cl, dyn, tag string, ok bool) {
+	p := strings.Split(arg, " @ ")
+	switch len(p) {
+	case 2:
+		return p[0], p[1], "e", true
+	case 3:
+		return p[0], p[1], p[2], true
+	}
+	return "", "", "", false
 }
 
 // Go function literal for the switch, returning the clause index (or -1), plus the argument
 func (s *c09State) tswSource(arg string) (fn string, val string, ok bool) {
-	cl, dyn, found := strings.Cut(arg, " @ ")
+	cl, dyn, tag, found := c09tswSplit(arg)
 	if !found {
 		return "", "", false
 	}
-	if _, ok := s.tyName(dyn); !ok {
+	if _, ok := s.tyName(dyn, false); !ok {
 		return "", "", false
 	}
+	param := "interface{}"
+	if tag != "e" {
+		k, err := strconv.Atoi(tag)
+		if err != nil || k < 0 || k >= len(s.u.Types) || s.u.Types[k].Kind != 'i' {
+			return "", "", false
+		}
+		param = s.u.Types[k].Name
+	}
 	var sb strings.Builder
-	sb.WriteString("func(e interface{}) int { switch e.(type) {")
+	sb.WriteString("func(e " + param + ") int { switch e.(type) {")
 	for i, c := range strings.Split(cl, "/") {
 		if c == "d" {
 			fmt.Fprintf(&sb, " default: return %d;", i)
@@ -919,7 +988,7 @@ func (s *c09State) tswSource(arg string) (fn string, val string, ok bool) {
 		}
 		var names []string
 		for _, ty := range strings.Split(c, ",") {
-			n, ok := s.tyName(ty)
+			n, ok := s.tyName(ty, true)
 			if !ok {
 				return "", "", false
 			}
@@ -940,6 +1009,10 @@ func (s *c09State) execTsw(idx int, op, arg string) Result {
 	}
 	s.tswN++
 	name := fmt.Sprintf("tsw%d", s.tswN)
+	_, dynCode, tagCode, _ := c09tswSplit(arg)
+	if t := s.tswInstance(dynCode); t >= 0 {
+		s.ensureInstance(t)
+	}
 	out := "arm ?"
 	_ = name
 	vals, e := evalSrc(s.ir, "("+fn+")("+val+")")
@@ -958,19 +1031,46 @@ func (s *c09State) execTsw(idx int, op, arg string) Result {
 		if out != want {
 			r.Viol = fmt.Sprintf("%s (%s): gomacro %q (%s), compiled Go %q; decls: %s", fn, val, out, truncate(e, 160), want, strings.Join(s.u.decls(), "; "))
 			r.Key = "typeswitch-arm"
-			if e != "" {
+			cl, dyn, tag, _ := c09tswSplit(arg)
+			dk, _ := strconv.Atoi(dyn)
+			_ = tagCode
+			switch {
+			case tag != "e" && dyn == "n":
+				r.Key = "typeswitch-nil-interpreted-interface"
+			case tag != "e" && dk < 100 && s.u.Types[dk].Kind == 'o':
+				r.Key = "named-basic-value-to-interpreted-interface"
+			case e != "":
 				r.Key = "typeswitch-rejected"
-			} else if s.tswIdentical(arg) {
+			case s.tswIdentical(arg):
 				r.Key = "typeswitch-identical-underlying-type"
+			case tag == "e" && dyn != "n" && dk < 200 && c09clauseHas(cl, wantV, "300", "301"):
+				r.Key = "typeswitch-compiled-interface-case-on-interpreted-value"
 			}
 		}
 	}
 	return r
 }
 
+// does clause number w (decimal string) of cl contain one of the given type codes?
+func c09clauseHas(cl, w string, codes ...string) bool {
+	i, err := strconv.Atoi(w)
+	cs := strings.Split(cl, "/")
+	if err != nil || i < 0 || i >= len(cs) {
+		return false
+	}
+	for _, ty := range strings.Split(cs[i], ",") {
+		for _, c := range codes {
+			if ty == c {
+				return true
+			}
+		}
+	}
+	return false
+}
+
 // does the dynamic type share its reflect.Type with a DIFFERENT case type (emulated named types)?
 func (s *c09State) tswIdentical(arg string) bool {
-	cl, dyn, _ := strings.Cut(arg, " @ ")
+	cl, dyn, _, _ := c09tswSplit(arg)
 	rd := s.rtOf(dyn)
 	for _, c := range strings.Split(cl, "/") {
 		for _, ty := range strings.Split(c, ",") {
@@ -994,6 +1094,8 @@ func (s *c09State) rtOf(code string) string {
 		return "*" + s.rtOf(strconv.Itoa(k-100))
 	case s.u.Types[k].Kind == 'o':
 		return "200"
+	case s.u.Types[k].Kind == 'i':
+		return "iface" + code
 	}
 	return fmt.Sprintf("body%d", s.u.Types[k].Body)
 }
@@ -1012,7 +1114,7 @@ func c09prepare(ops []string) {
 	var inited map[int]bool
 	flush := func() {
 		if cur != nil && cur.stdErr == "" && body.Len() > 0 {
-			snippets = append(snippets, Snippet{Decls: strings.Join(cur.u.decls(), "\n") + "\n", Body: body.String()})
+			snippets = append(snippets, Snippet{Imports: []string{"time", "errors"}, Decls: strings.Join(cur.u.decls(), "\n") + "\nvar _ = time.Second\nvar _ = errors.New\n", Body: body.String()})
 		}
 		body.Reset()
 	}
@@ -1095,6 +1197,11 @@ func c09prepare(ops []string) {
 			if c09dupCases(arg) {
 				continue
 			}
+			if _, d, _, ok := c09tswSplit(arg); ok {
+				if t := cur.tswInstance(d); t >= 0 {
+					ensure(t)
+				}
+			}
 			probe(fmt.Sprint(idx), "("+fn+")("+val+")")
 		}
 	}
@@ -1123,7 +1230,7 @@ func c09prepare(ops []string) {
 }
 
 func c09dupCases(arg string) bool {
-	cl, _, _ := strings.Cut(arg, " @ ")
+	cl, _, _, _ := c09tswSplit(arg)
 	seen := map[string]bool{}
 	nd := 0
 	for _, c := range strings.Split(cl, "/") {
@@ -1145,7 +1252,55 @@ func c09dupCases(arg string) bool {
 
 var c09fieldPool = []string{"X", "Y", "Z"}
 var c09methodPool = []string{"X", "Y", "M", "P"}
-var c09typeNames = []string{"A", "B", "C", "D", "E", "F", "G", "H", "J", "L"}
+var c09typeNames = []string{"A", "B", "C", "D", "E", "F", "G", "H", "J", "L", "N", "R", "S", "U", "V", "W", "AA", "BB", "CC", "DD"}
+
+// addAny gives every non-interface type a value-receiver method T and appends the interpreted
+// interface Any = interface{ T() int } (the tag type of type switches on an interpreted interface).
+// Returns the index of Any, or -1 if there is no struct type to implement it.
+func (u *c09Univ) addAny() int {
+	impl := -1
+	for i := range u.Types {
+		t := &u.Types[i]
+		if t.Kind == 'i' {
+			continue
+		}
+		t.Methods = append(append([]c09Method{}, t.Methods...), c09Method{"T", false})
+		if impl < 0 && t.Kind == 's' {
+			impl = i
+		}
+	}
+	if impl < 0 {
+		return -1
+	}
+	u.Types = append(u.Types, c09Type{Name: "Any" + u.Suffix, Kind: 'i', Methods: []c09Method{{"T", false}}, Impl: impl})
+	return len(u.Types) - 1
+}
+
+// chainUniv: every embedding chain of depth 3 over one bottom type A with method M
+// (value or pointer receiver): B_e1{A}, C_e1e2{B}, D_e1e2e3{C} for all 8 value/pointer
+// combinations, plus interface I{M} with an implementing struct.
+func c09chainUniv(ptrRecv bool, suffix string) *c09Univ {
+	u := &c09Univ{Suffix: suffix}
+	nm := func(i int) string { return c09typeNames[i] + suffix }
+	K := c09Field{Name: "K"}
+	u.Types = append(u.Types, c09Type{Name: nm(0), Kind: 's', Fields: []c09Field{K}, Methods: []c09Method{{"M", ptrRecv}}})
+	prev := []int{0}
+	for level := 0; level < 3; level++ {
+		var cur []int
+		for _, p := range prev {
+			for _, ptr := range []bool{false, true} {
+				i := len(u.Types)
+				u.Types = append(u.Types, c09Type{Name: nm(i), Kind: 's', Fields: []c09Field{K, {Name: nm(p), Emb: true, Ptr: ptr, Typ: p}}})
+				cur = append(cur, i)
+			}
+		}
+		prev = cur
+	}
+	i := len(u.Types)
+	u.Types = append(u.Types, c09Type{Name: nm(i), Kind: 's', Fields: []c09Field{K}, Methods: []c09Method{{"M", false}}})
+	u.Types = append(u.Types, c09Type{Name: nm(i + 1), Kind: 'i', Methods: []c09Method{{"M", false}}, Impl: i})
+	return u
+}
 
 func c09genUniv(r *rand.Rand, cyclic bool, suffix string) *c09Univ {
 	u := &c09Univ{CycleOK: cyclic, Suffix: suffix}
@@ -1179,6 +1334,9 @@ func c09genUniv(r *rand.Rand, cyclic bool, suffix string) *c09Univ {
 				if r.Intn(3) == 0 {
 					t.Methods = append(t.Methods, c09Method{m, r.Intn(3) == 0})
 				}
+			}
+			if r.Intn(3) == 0 {
+				t.Methods = append(t.Methods, c09Method{"String", r.Intn(3) == 0})
 			}
 			u.Types = append(u.Types, t)
 		default:
@@ -1220,6 +1378,12 @@ func c09genUniv(r *rand.Rand, cyclic bool, suffix string) *c09Univ {
 					t.Methods = append(t.Methods, c09Method{m, r.Intn(2) == 0})
 				}
 			}
+			if r.Intn(4) == 0 {
+				t.Methods = append(t.Methods, c09Method{"String", r.Intn(3) == 0})
+			}
+			if r.Intn(8) == 0 {
+				t.Methods = append(t.Methods, c09Method{"Error", r.Intn(3) == 0})
+			}
 			u.Types = append(u.Types, t)
 		}
 	}
@@ -1236,12 +1400,80 @@ func c09genUniv(r *rand.Rand, cyclic bool, suffix string) *c09Univ {
 }
 
 func c09gen(r *rand.Rand, tier string, emit func(string)) {
-	nu, nlook, ncyc := 14, 25, 12
+	nu, nlook, ncyc := 10, 25, 12
 	if tier == "thorough" {
 		nu, nlook, ncyc = 400, 600, 300
 	}
-	names := append(append([]string{"K", "_", "Q"}, c09fieldPool...), "M", "P")
+	names := append(append([]string{"K", "_", "Q"}, c09fieldPool...), "M", "P", "T")
+	pick := func(l []string) string { return l[r.Intn(len(l))] }
+	// one switch: clauses over `concrete` case codes (several per clause allowed) and `ifaces`
+	// (single-type clauses only; with probability 0.6 one of them is forced among the first two
+	// clauses, i.e. BEFORE concrete cases), default anywhere
+	genSwitch := func(concrete, ifaces []string) []string {
+		pool := append([]string{}, concrete...)
+		r.Shuffle(len(pool), func(a, b int) { pool[a], pool[b] = pool[b], pool[a] })
+		ncl := 2 + r.Intn(4)
+		var cls []string
+		pi := 0
+		for c := 0; c < ncl && pi < len(pool); c++ {
+			nt := 1
+			if r.Intn(4) == 0 {
+				nt = 2 + r.Intn(2)
+			}
+			var tys []string
+			for x := 0; x < nt && pi < len(pool); x++ {
+				tys = append(tys, pool[pi])
+				pi++
+			}
+			cls = append(cls, strings.Join(tys, ","))
+		}
+		if len(ifaces) > 0 {
+			ifs := append([]string{}, ifaces...)
+			r.Shuffle(len(ifs), func(a, b int) { ifs[a], ifs[b] = ifs[b], ifs[a] })
+			n := r.Intn(3)
+			if r.Intn(5) < 3 && n == 0 {
+				n = 1
+			}
+			for x := 0; x < n && x < len(ifs); x++ {
+				at := r.Intn(len(cls) + 1)
+				if x == 0 && r.Intn(5) < 3 {
+					at = r.Intn(2)
+				}
+				cls = append(cls[:at], append([]string{ifs[x]}, cls[at:]...)...)
+			}
+		}
+		if r.Intn(2) == 0 {
+			at := r.Intn(len(cls) + 1)
+			cls = append(cls[:at], append([]string{"d"}, cls[at:]...)...)
+		}
+		return cls
+	}
+	// operands: mostly types that occur as a concrete case
+	pickDyn := func(cls []string, dyns []string) string {
+		if r.Intn(3) > 0 {
+			var in []string
+			ok := map[string]bool{}
+			for _, d := range dyns {
+				ok[d] = true
+			}
+			for _, c := range cls {
+				for _, ty := range strings.Split(c, ",") {
+					if ok[ty] {
+						in = append(in, ty)
+					}
+				}
+			}
+			if len(in) > 0 {
+				return pick(in)
+			}
+		}
+		return pick(dyns)
+	}
 	emitUniv := func(u *c09Univ, full bool) {
+		anyIdx := -1
+		if full && !u.CycleOK {
+			anyIdx = u.addAny()
+		}
 		emit("decl " + u.encode())
 		all := append([]string{}, names...)
 		for _, t := range u.Types {
@@ -1265,13 +1497,19 @@ func c09gen(r *rand.Rand, tier string, emit func(string)) {
 		}
 		for t := range u.Types {
 			for _, nm := range all {
+				if strings.HasPrefix(u.Suffix, "c") {
+					if nm == "M" && t >= 7 && t < 15 {
+						emit(fmt.Sprintf("sel %d %s", t, nm))
+					}
+					continue
+				}
 				if nm != "_" && r.Intn(3) == 0 {
 					emit(fmt.Sprintf("sel %d %s", t, nm))
 				}
 			}
 		}
 		for i, ti := range u.Types {
-			if ti.Kind != 'i' {
+			if ti.Kind != 'i' || i == anyIdx {
 				continue
 			}
 			for t, tt := range u.Types {
@@ -1284,37 +1522,50 @@ func c09gen(r *rand.Rand, tier string, emit func(string)) {
 				}
 			}
 		}
-		// type switches over concrete types
-		var codes []string
+		// type switches
+		var interp, ifaces []string // interpreted concrete codes, interpreted interface codes
 		for t, tt := range u.Types {
 			if tt.Kind != 'i' {
-				codes = append(codes, strconv.Itoa(t), strconv.Itoa(100+t))
+				interp = append(interp, strconv.Itoa(t), strconv.Itoa(100+t))
+			} else {
+				ifaces = append(ifaces, strconv.Itoa(t))
 			}
 		}
-		codes = append(codes, "200", "201", "n")
+		chain := strings.HasPrefix(u.Suffix, "c")
+		if chain {
+			// method sets through every depth-3 embedding chain, seen by a type switch on an
+			// interpreted interface value: `case I` (needs M) before the concrete types
+			iI := ifaces[0]
+			for t := 1; t < 15; t++ {
+				for _, d := range []int{t, 100 + t} {
+					emit(fmt.Sprintf("tsw %s/%d/0,100/d @ %d @ %d", iI, d, d, anyIdx))
+				}
+			}
+			return
+		}
+		// (a) operand of static type interface{}: compiled and interpreted concrete types,
+		//     compiled interfaces (interface -> interpreted interface is a documented limitation)
+		caseE := append(append([]string{}, interp...), "200", "201", "310", "311", "n")
+		dynE := append(append([]string{}, interp...), "200", "201", "310", "311", "312", "n")
 		for k := 0; k < 3; k++ {
-			perm := r.Perm(len(codes))
-			ncl := 1 + r.Intn(4)
-			var cls []string
-			pi := 0
-			for c := 0; c < ncl && pi < len(perm); c++ {
-				nt := 1
-				if r.Intn(3) == 0 {
-					nt = 2 + r.Intn(2)
-				}
-				var tys []string
-				for x := 0; x < nt && pi < len(perm); x++ {
-					tys = append(tys, codes[perm[pi]])
-					pi++
-				}
-				cls = append(cls, strings.Join(tys, ","))
-			}
-			if r.Intn(2) == 0 {
-				at := r.Intn(len(cls) + 1)
-				cls = append(cls[:at], append([]string{"d"}, cls[at:]...)...)
-			}
+			cls := genSwitch(caseE, []string{"300", "301"})
 			for x := 0; x < 3; x++ {
-				emit(fmt.Sprintf("tsw %s @ %s", strings.Join(cls, "/"), codes[r.Intn(len(codes))]))
+				emit(fmt.Sprintf("tsw %s @ %s", strings.Join(cls, "/"), pickDyn(cls, dynE)))
+			}
+		}
+		// (b) operand of the interpreted interface type Any: interpreted concrete types,
+		//     interpreted and compiled interfaces as cases
+		if anyIdx >= 0 {
+			caseK := append(append([]string{}, interp...), "n")
+			for k := 0; k < 3; k++ {
+				cls := genSwitch(caseK, append(append([]string{}, ifaces...), "300", "301"))
+				for x := 0; x < 3; x++ {
+					d := pickDyn(cls, interp)
+					if r.Intn(12) == 0 {
+						d = "n"
+					}
+					emit(fmt.Sprintf("tsw %s @ %s @ %d", strings.Join(cls, "/"), d, anyIdx))
+				}
 			}
 		}
 	}
@@ -1341,6 +1592,9 @@ func c09gen(r *rand.Rand, tier string, emit func(string)) {
 		}
 		emitUniv(nextU(u), true)
 	}
+	// every depth-3 value/pointer embedding chain x receiver kind (method sets, C09-2 shape)
+	emitUniv(nextU(c09chainUniv(false, "c0")), true)
+	emitUniv(nextU(c09chainUniv(true, "c1")), true)
 	for i := 0; i < nu; i++ {
 		emitUniv(nextU(c09genUniv(r, false, sfx())), true)
 	}
